@@ -1727,7 +1727,9 @@ impl SubRule {
                     // if !pos.at_syll_start() && !pos.at_syll_end(word) {
                     //     // split current syll into two at insert_pos
                     // }
-                    if let MatchElement::SyllBound(..) = input[state_index] {
+                    if let MatchElement::SyllBound(bp, _) = input[state_index] {
+                        // keep the cursor at the matched boundary, otherwise the scan restarts from the word start forever (e.g. `$ > $`)
+                        last_pos = SegPos::new(bp, 0);
                         continue
                     } else {
                         return Err(RuleRuntimeError::SubstitutionSyllBound(in_state.position, out_state.position))
